@@ -1,4 +1,4 @@
 From FV Require Import Common.ExtractTypes Common.EventLog Str.StrModel.
 From Coq Require Extraction.
 From Coq Require Import ExtrOcamlBasic.
-Extraction "../build/extract/str_model.ml" types_witness world0 step finish wf_closed view_text.
+Extraction "../build/extract/str_model.ml" types_witness char_t char16_t char32_t wchar_t world0 step finish wf_closed view_text.
